@@ -8,17 +8,19 @@ LEAN_MODULES = ["IsoVerif.Props.C17"]
 THEOREMS = ["IsoVerif.Props.C17." + t for t in ("C17_untouched", "C17_batch", "C17_watch", "C17_keeps_last_success")]
 HARNESS = ("hx_fs", {"HX_ENGINE": "c17", **t_fs.harness_env()})
 DRIVER = "drv_fs"
-CASES = {"quick": 2000, "thorough": 100000}
+CASES = {"quick": 1500, "thorough": 40000}
 TECHNIQUE = ("Lean 4 theorems over the model of compile(): diagnostics are returned before anything is planned or applied; that order is pinned from the current source by translator t_fs; "
-             "sessions with failing compiles on top of directories left by earlier compiles are run against the real planner/writer and the model")
+             "sessions with failing compiles on top of directories left by earlier compiles are run against the real planner/writer and the model, and the real compile() is run on generated invalid programs "
+             "on top of the directory of a successful compile, in the same CompilerState (watch-mode recompile through update_sources) and in a new process, with directory snapshots before and after")
 LEVEL_TEXT = ("Kernel-checked: in every session state and for every directory, a compile whose validation reports diagnostics returns the session unchanged - same directory, same in-memory state "
               "(C17_untouched, C17_batch) - and a history containing such a compile behaves exactly like the history without it (C17_watch). What makes the model's first match the code's behaviour is the "
               "translator t_fs: it fails (tie broken) unless compile() reads `let (artifacts, stats) = get_artifact_path_and_content(db)?;` before get_file_system_operations(.., &mut state.file_system_state) "
-              "before apply_file_system_operations, with no access to the state or std::fs before.")
+              "before apply_file_system_operations, with no access to the state or std::fs before; and the real compile() on generated invalid programs is observed to leave directory and state flag unchanged.")
 LEVEL_NOTE = ("Trusted: Lean kernel; translator t_fs (syntactic pin of compile()'s statement order); that get_artifact_path_and_content itself does not write files is by reading (it is a pure memoised "
               "function of the database) and is not modelled.")
-PARTIAL = ["the real compile() is not driven with generated invalid programs: the early return is tied by the translator's shape pin and by session cases in which the harness skips planning/applying "
-           "exactly as the `?` does; that validation of an invalid program returns Err (rather than Ok with partial artifacts) belongs to the validation properties"]
+PARTIAL = ["the invalid programs compiled by the real compile() (engine fs.real) are hx_projgen's single-fault mutants and projects with dropped declarations (one rule violated at a time); "
+           "that every invalid program makes validation return Err rather than Ok with partial artifacts belongs to the validation properties",
+           "create_config (process start-up, before any compile) creates the artifact directory if it is missing; that is outside compile() and is kept out of the before/after comparison"]
 ASSUMPTIONS = ["get_artifact_path_and_content has no file-system side effect"]
 
 
@@ -44,7 +46,7 @@ def check_distribution(dist, cases):
     return None
 
 
-REAL_CASES = {'quick': 96, 'thorough': 4000}
+REAL_CASES = {'quick': 64, 'thorough': 2000}
 
 
 def extra(ctx, harness_bin, driver_bin):
